@@ -501,8 +501,14 @@ func (fr *Frame) applyContract(site ssa.Instruction, k *FuncContract, ce callee,
 	env := vc.newEnv(k, st, st.clone())
 	env.frame = nil
 	if strings.Contains(k.Name, " in ") {
-		// a contract scoped to this caller may mention the caller's locals by name
+		// a contract scoped to this caller may mention the caller's locals and
+		// parameters by name (the callee's own parameter names win)
 		env.frame = fr
+		for _, p := range fr.fn.Params {
+			if _, bound := fr.vals[p]; bound {
+				env.vars[p.Name()] = cval{t: fr.val(p), typ: p.Type(), sort: vc.sortOf(p.Type())}
+			}
+		}
 	}
 	for i, n := range names {
 		if i < len(args) {
@@ -547,6 +553,29 @@ func (fr *Frame) applyContract(site ssa.Instruction, k *FuncContract, ce callee,
 				cv.addr = a
 				env.vars[n] = cv
 			}
+		}
+	}
+	// variadic/literal slice arguments of small constant length: seed the element
+	// terms quantified clauses of the callee's contract are triggered by
+	for _, a := range c.Args {
+		sl, ok := a.(*ssa.Slice)
+		if !ok {
+			continue
+		}
+		pt, ok := sl.X.Type().Underlying().(*types.Pointer)
+		if !ok {
+			continue
+		}
+		at, ok := pt.Elem().Underlying().(*types.Array)
+		if !ok || at.Len() > 8 || isAggregate(at.Elem()) {
+			continue
+		}
+		sv := fr.val(a)
+		ev := vc.elemVar(at.Elem())
+		row := fmt.Sprintf("(select %s (s_base %s))", vc.look(st, ev), sv)
+		fn := vc.slAt(vc.sortOf(at.Elem()))
+		for i := int64(0); i < at.Len(); i++ {
+			vc.emit(fmt.Sprintf("(assert (= (%s %s (s_off %s) %d) (select %s (+ (s_off %s) %d))))", fn, row, sv, i, row, sv, i))
 		}
 	}
 	pre := st.clone()
